@@ -489,17 +489,35 @@ def _degree(e):
     return 99
 
 
+def family_log3(tier='thorough'):
+    """logical chains of depth 3: every (parent, child, atom) over unary logical contexts built from not / or / and /
+    iff / implication (as condition, as consequence) / count-comparison / if-then-else condition; contexts flip and mix
+    twice on the way down to the comparison"""
+    BB = ('ge', B, N(1))
+    U = [('not', lambda e: ('not', e)), ('or b', lambda e: ('or', e, BB)), ('and b', lambda e: ('and', e, BB)),
+         ('iff b', lambda e: ('iff', e, BB)), ('=>b', lambda e: ('impl', e, BB, ('b', True))), ('b=>', lambda e: ('impl', BB, e, ('b', True))),
+         ('b=>else', lambda e: ('impl', BB, ('b', True), e)), ('count>=1', lambda e: ('ge', ('count', e, BB), N(1))),
+         ('count==1', lambda e: ('eq', ('count', e, BB), N(1))), ('if>=1', lambda e: ('ge', ('if', e, X, Y), N(1)))]
+    atoms = [('x>=1', ('ge', X, N(1))), ('x==1', ('eq', X, N(1))), ('y<=1', ('le', Y, N(1))), ('x!=1', ('ne', X, N(1))),
+             ('y<1', ('lt', Y, N(1))), ('x==y', ('eq', X, Y)), ('abs(x)>=2', ('ge', ('abs', X), N(2)))]
+    if tier == 'quick': atoms = atoms[:4]
+    for pn, pf in U:
+        for cn, cf in U:
+            for an, a in atoms:
+                yield ('log3 %s(%s(%s))' % (pn, cn, an), Model(V3, lcons=[pf(cf(a))], obj=('min', None, {0: 1.0, 1: 1.0, 2: 1.0})))
+
+
 FAMILIES = {
     'shapes': family_shapes, 'sharing': family_sharing, 'canon': family_canon, 'uenc': family_uenc,
     'bounds': family_bounds, 'linmix': family_linear_mix, 'alldiffcont': family_alldiff_cont,
     'compl': family_compl, 'sos': family_sos, 'dvars': family_dvars, 'fracint': family_fracint,
-    'cones': family_cones, 'pl': family_pl, 'affprod': family_affprod, 'alg3': family_alg3,
+    'cones': family_cones, 'pl': family_pl, 'affprod': family_affprod, 'alg3': family_alg3, 'log3': family_log3,
 }
 
 
 def all_models(tier, families=None):
     for fam, fn in FAMILIES.items():
         if families and fam not in families: continue
-        gen = fn(tier) if fam in ('shapes', 'pl', 'alg3') else fn()
+        gen = fn(tier) if fam in ('shapes', 'pl', 'alg3', 'log3') else fn()
         for name, m in gen:
             yield fam, name, m
